@@ -7,13 +7,17 @@
 (*    IncreaseFeeRate(ct) with ct skipping, repeating and increasing.       *)
 (*  - publisher grids (SweepFeePubMC.cfg): budgets around the fee           *)
 (*    thresholds of two weights (below / above the 2000 wu where            *)
-(*    budget-rate rounding starts to matter), MaxFeeRate below/above the    *)
-(*    budget rate, change above / below dust with and without a required    *)
-(*    output, every mempool / publish answer, every block pattern.          *)
+(*    budget-rate rounding starts to matter), the configured maximum (in    *)
+(*    sat/vb, turned into the request's MaxFeeRate by SweepReq) below/above *)
+(*    the budget rate, change above / below dust with and without a         *)
+(*    required output, an input with unconfirmed-parent info (parent paying *)
+(*    nothing / a rate inside the ramp), every mempool / publish answer,    *)
+(*    every block pattern.  Every request is SweepReq(config, input set):   *)
+(*    what UtxoSweeper.sweep has to build.                                  *)
 EXTENDS SweepFee
 
 CONSTANTS Relay, Ends, Sopts, Ests, Cts, ConfSet, \* fee function grid (ConfSet = {}: all conf targets 0..max+1)
-          Weights, Budgets, MaxRates, InSets, Conf0, H0
+          Weights, Budgets, MaxVbs, InSets, Conf0, H0
 
 \* a cfg file cannot hold negative numbers: 0 in Sopts / Ests stands for -1 (no explicit start / estimator error)
 Dec(S) == {IF x = 0 THEN -1 ELSE x : x \in S}
@@ -21,16 +25,19 @@ Dec(S) == {IF x = 0 THEN -1 ELSE x : x \in S}
 MCNew == {[maxrate |-> e, ct |-> c, sopt |-> s, est |-> x, relay |-> Relay] :
             e \in Ends, c \in Cts, s \in Dec(Sopts), x \in Dec(Ests)}
 
-\* input sets as <<totalin, reqout, dust of the change script>>; InSets selects rows
-InTable == << <<100000, 0, 294>>,       \* plenty of change
-              <<2200, 0, 294>>,         \* change falls below dust while the rate rises: tx without output
-              <<12200, 10000, 294>>,    \* required output + change that falls below dust: absorbed into the fee
-              <<11000, 10000, 294>>,    \* required output, inputs cannot pay the higher rates
-              <<50000, 49000, 330>> >>  \* required output nearly everything (wallet top-up too small)
-MCReq == {[budget |-> b, weight |-> w, maxrate |-> m, relay |-> Relay, totalin |-> i[1], reqout |-> i[2],
-           dust |-> i[3], deadline |-> H0 + Conf0, sopt |-> s, est |-> x,
-           prevmax |-> IF s > 0 THEN s ELSE 0] :
-            b \in Budgets, w \in Weights, m \in MaxRates, i \in {InTable[k] : k \in InSets}, s \in Dec(Sopts), x \in Dec(Ests)}
+\* input sets as <<totalin, reqout, dust of the change script, parent weight, parent fee>>; InSets selects rows
+InTable == << <<100000, 0, 294, 0, 0>>,       \* plenty of change
+              <<2200, 0, 294, 0, 0>>,         \* change falls below dust while the rate rises: tx without output
+              <<12200, 10000, 294, 0, 0>>,    \* required output + change that falls below dust: absorbed into the fee
+              <<11000, 10000, 294, 0, 0>>,    \* required output, inputs cannot pay the higher rates
+              <<50000, 49000, 330, 0, 0>>,    \* required output nearly everything (wallet top-up too small)
+              <<100330, 0, 294, 724, 0>>,     \* anchor + wallet input, unconfirmed parent that pays nothing
+              <<100330, 0, 294, 1116, 335>> >> \* ... parent at 300 sat/kw: above the first rates, below the later ones
+MCReq == {SweepReq([maxvb |-> m, relay |-> Relay, est |-> x],
+                   [weight |-> w, totalin |-> i[1], reqout |-> i[2], dust |-> i[3], inbudget |-> b,
+                    indeadline |-> H0 + Conf0, prevmax |-> IF s > 0 THEN s ELSE 0,
+                    pweight |-> i[4], pfee |-> i[5]]) :
+            b \in Budgets, w \in Weights, m \in MaxVbs, i \in {InTable[k] : k \in InSets}, s \in Dec(Sopts), x \in Dec(Ests)}
 
 MCHeights == H0..(H0 + Conf0 + 1)
 MCConf == IF ConfSet = {} THEN 0..((CHOOSE m \in Cts : \A c \in Cts : c <= m) + 1) ELSE ConfSet
